@@ -801,6 +801,9 @@ def main(argv):
         emit({"ev": "hello", "pid": os.getpid(), "t": time.monotonic()})
         for scenario in plan:
             emit({"ev": "begin", "sid": scenario["sid"], "t": time.monotonic()})
+            # the options change from batch to batch within one process (as between the stages and the records of a
+            # run): every batch sees the options of the moment it is started
+            update_config({"verif_marker": f"{CONFIG_MARKER}/{scenario['sid']}"})
             try:
                 info = run_scenario(scenario, scratch)
             except Exception as err:  # harness failure, not an observation  # pylint: disable=broad-except
